@@ -32,6 +32,8 @@ import (
 //	op [7,id,rst]           cleanupStream
 //	op [8] incomingGoAway   op [9,ack] ping   op [10] processData()   op [12] closeConnection
 //	op [21,sid,v]           incomingSettings{sid v} (sid other than 1 and 4)
+//	op [14,id,n,L,rst]      earlyAbortStream (trailers-only response for a stream never registered; not executed
+//	                        when id is established)
 //	op [30,last...]         above loopy: real http2Client (raw HTTP/2 peer over net.Pipe), fresh stream, one
 //	                        ClientStream.Write per element with WriteOptions.Last = element; reported as
 //	                        pseudo frames [7,last,accepted,0,0]
@@ -370,6 +372,12 @@ func (h *vLoopyH) step(op []int64) []int64 {
 		isEmpty, err = l.processData()
 	case 12:
 		err = l.handle(closeConnection{})
+	case 14:
+		if h.has(id) {
+			code = 2
+		} else {
+			err = l.handle(&earlyAbortStream{streamID: id, rst: arg(4) != 0, hf: vLoopyHF(arg(2))})
+		}
 	case 30:
 		acc := vLoopyAPIWrites(op[1:])
 		h.ntAPI = true
@@ -461,6 +469,20 @@ func vLoopyGen(r *vRand, tier string, idx int) ([]int64, [][]int64) {
 			id += 4
 		}
 		return []int64{1}, ops
+	case 8:
+		// early aborts (trailers-only responses for unregistered streams) with header blocks around and far
+		// above one frame
+		ops := [][]int64{{3, 1}, {6, 1, 5, 10, 0}}
+		id := int64(1001)
+		for i, n := range []int64{0, 100, 16377, 16378, 16379, 40000, 60080} {
+			ops = append(ops, []int64{14, id, n, vLoopyHLen(n), vB(i%3 == 2)}, []int64{10})
+			id += 2
+		}
+		ops = append(ops, []int64{14, 1, 5, vLoopyHLen(5), 0}) // established id: not executed
+		return []int64{1}, ops
+	case 10:
+		// on the client earlyAbortStream is an error: loopy exits
+		return []int64{0}, [][]int64{{4, 1, 3, vLoopyHLen(3), 0}, {14, 1001, 40000, vLoopyHLen(40000), 0}, {10}}
 	case 6:
 		// every Last-flag sequence of up to 3 Write calls on a real http2Client
 		var ops [][]int64
@@ -476,6 +498,7 @@ func vLoopyGen(r *vRand, tier string, idx int) ([]int64, [][]int64) {
 		return []int64{0}, ops
 	}
 	var ops [][]int64
+	eaid := int64(0)
 	ended := map[int64]bool{} // ids that got a message with endStream: the application writes nothing after it
 	var ids []int64
 	next := int64(1 + sd) // client ids odd... any increasing ids do
@@ -602,7 +625,7 @@ func vLoopyGen(r *vRand, tier string, idx int) ([]int64, [][]int64) {
 				es := r.Chance(50)
 				ops = append(ops, []int64{5, id, vB(es), n, vLoopyHLen(n), vB(r.Chance(40))})
 			}
-		case k < 92:
+		case k < 91:
 			id := pick()
 			ops = append(ops, []int64{7, id, vB(r.Bool())})
 			for i, x := range ids {
@@ -612,8 +635,17 @@ func vLoopyGen(r *vRand, tier string, idx int) ([]int64, [][]int64) {
 					break
 				}
 			}
-		case k < 93:
+		case k < 92:
 			ops = append(ops, []int64{9, vB(r.Bool())})
+		case k < 93:
+			if sd == 1 || r.Chance(3) {
+				n := r.PickI64(0, 50, 16377, 16378, 16379, 40000, 60080)
+				if r.Chance(50) {
+					n = int64(r.Intn(300))
+				}
+				eaid++
+				ops = append(ops, []int64{14, 1001 + 2*eaid, n, vLoopyHLen(n), vB(r.Chance(30))})
+			}
 		case k < 94:
 			// prefix split on a fresh stream: k0 = 1..4 bytes of window left for an empty-payload message
 			if len(ids) < 6 {
